@@ -19,7 +19,7 @@ PROP_V = "Properties/C15.v"
 
 FIXED = ["e2e", "unaligned", "prefix", "tickets", "wrong", "truncated", "headers", "window", "empty",
          "cuttiles", "interleave2", "interleave3", "big", "faultpos", "faultpos2", "restarts", "restarts2",
-         "gcruns", "gcruns2", "retryolder", "retry", "retry2", "resend", "commitrace", "pubrecord"]
+         "gcruns", "gcruns2", "retryolder", "retry", "retry2", "resend", "commitrace", "pubrecord", "twologs"]
 
 TRUSTED = [
     "Coq 8.16.1 kernel (coqc; vm_compute in the Examples of Mirror/Ideal.v)",
@@ -44,7 +44,7 @@ RULE = ("one evaluation = one history (event list) run against the real witness+
         "errors, re-upload window (8*256) and start > next, [n,n) commits incl. the empty tree, commits behind nextEntry "
         "(ensureCutTiles from the full tile and from a wider partial), 2 and 3 interleaved uploads incl. overtaking and commit "
         "races, a 66,500-entry log crossing 65,536 with gc and re-upload across the boundary), every fault kind at every "
-        "operation position of two base scripts, the same with a client that retries the failed request (same range / ticket / body) once or twice with the fault cleared, incl. a script where a ticket commits an older pending checkpoint at a mid-tile size while a later upload is in flight, optionally followed by a restart + resumption, a ticket for an older pending checkpoint used by a request that RE-SENDS entries below the next entry while a later upload is processed but uncommitted (committing afterwards, or stranded by a restart, aligned / unaligned / multi-tile, every kind of cut), a commit at a smaller mid-tile size held INSIDE the backend fetch of ensureCutTiles while a second request towards the newer pending checkpoint is started in its own goroutine (blocked behind the per-log mutex on the unchanged code: its begin is then recorded after the held commit, the order in which they took effect), a commit at N whose mirror Lock.Replace fails (unapplied / applied) followed by a commit at a smaller size (fresh signature, older ticket) in the same process or after a restart, a restart / a gc run before every event of two base scripts, and random "
+        "operation position of two base scripts, the same with a client that retries the failed request (same range / ticket / body) once or twice with the fault cleared, incl. a script where a ticket commits an older pending checkpoint at a mid-tile size while a later upload is in flight, optionally followed by a restart + resumption, a ticket for an older pending checkpoint used by a request that RE-SENDS entries below the next entry while a later upload is processed but uncommitted (committing afterwards, or stranded by a restart, aligned / unaligned / multi-tile, every kind of cut), a commit at a smaller mid-tile size held INSIDE the backend fetch of ensureCutTiles while a second request towards the newer pending checkpoint is started in its own goroutine (blocked behind the per-log mutex on the unchanged code: its begin is then recorded after the held commit, the order in which they took effect), a commit at N whose mirror Lock.Replace fails (unapplied / applied) followed by a commit at a smaller size (fresh signature, older ticket) in the same process or after a restart, two and three mirrored logs in one witness instance with resumed uploads at the same 256-aligned points (same-coordinate base tiles; every log judged by its own servable / public / monotone / final monitors, the model reproducing the event lines of one of them), a restart / a gc run before every event of two base scripts, and random "
         "histories (random logs of 300-1500 entries, 0-2 concurrent uploads, faults, restarts, gc); non-trivial = contains a "
         "fault, a restart, a gc run, a non-200 answer or an interleaving; distinct by digest of the history")
 
